@@ -314,6 +314,13 @@ class Gen:
         self.dropped["tracing"] += len(drops)
         hdr = blank_comments(src, it.sig_start, it.body_open)
         hdr = self._rewrite(hdr, spec.get("header_rewrites", ()))
+        if spec.get("depub"):
+            # R14: visibility only -- a `pub fn` of a crate-private type is given `pub(crate)` so that its contract may
+            # mention the type's private fields (Verus checks public contracts against a wider scope)
+            hdr2 = re.sub(r"^(\s*)pub fn ", r"\1pub(crate) fn ", hdr, count=1)
+            if hdr2 != hdr:
+                self.fired["R14"] = self.fired.get("R14", 0) + 1
+                hdr = hdr2
         attrs = clean_attrs(it)
         start_line = src.line_of(it.sig_start)
         self.raw(f"// @fn {key} mode={mode} props={','.join(spec.get('props', []))} src={src.rel}:{start_line}")
